@@ -1,5 +1,5 @@
-(* C20_gyro_deg.v — gyroscopes, reported bias and ground-truth angular velocity of
-   Sensors(quaternions=Q, freq=100.0, in_degrees=True) on a generic three-row trajectory.  (generated from one template
+(* C20_gyro_deg_333.v — gyroscopes, reported bias and ground-truth angular velocity of
+   Sensors(quaternions=Q, freq=333.0, in_degrees=True) on a generic three-row trajectory.  (generated from one template
    by the builder: the proof script is the same for every traced rate and unit) *)
 From Coq Require Import Reals List Lra.
 From AhrsLib Require Import Base Rot.
@@ -16,24 +16,24 @@ Hypothesis U2 : unit4 q2w q2x q2y q2z.
 Let q0 := [q0w; q0x; q0y; q0z].
 Let q1 := [q1w; q1x; q1y; q1z].
 Let q2 := [q2w; q2x; q2y; q2z].
-Let dt := dt100.
+Let dt := (1 / 333).
 Let w1 := rate dt q0 q1.
 Let w2 := rate dt q1 q2.
 
 (* output = gyroscopes ++ biases_gyroscopes ++ ang_vel.  gyroscopes row t = (unit) w_t + reported bias + (noise level in the
    output unit) * draw_t, with w_0 = 0 and w_t = rate dt q_(t-1) q_t = ang_vel row t : the reported bias IS the applied one *)
-Lemma gyro_deg_spec sg sm m0 m1 m2 u0 u1 u2 ng00 ng01 ng02 ng10 ng11 ng12 ng20 ng21 ng22 :
-  C20_gyro_deg_R q0w q0x q0y q0z q1w q1x q1y q1z q2w q2x q2y q2z sg sm m0 m1 m2 u0 u1 u2 ng00 ng01 ng02 ng10 ng11 ng12 ng20 ng21 ng22
+Lemma gyro_deg_333_spec sg sm m0 m1 m2 u0 u1 u2 ng00 ng01 ng02 ng10 ng11 ng12 ng20 ng21 ng22 :
+  C20_gyro_deg_333_R q0w q0x q0y q0z q1w q1x q1y q1z q2w q2x q2y q2z sg sm m0 m1 m2 u0 u1 u2 ng00 ng01 ng02 ng10 ng11 ng12 ng20 ng21 ng22
   = Val ((add3 (add3 [0;0;0] (bias_deg dt q0 q1 q2 u0 u1 u2)) (scale3 sg [ng00;ng01;ng02]) ++
           add3 (add3 (scale3 r2d w1) (bias_deg dt q0 q1 q2 u0 u1 u2)) (scale3 sg [ng10;ng11;ng12]) ++
           add3 (add3 (scale3 r2d w2) (bias_deg dt q0 q1 q2 u0 u1 u2)) (scale3 sg [ng20;ng21;ng22]))
          ++ bias_deg dt q0 q1 q2 u0 u1 u2 ++ ([0;0;0] ++ w1 ++ w2)).
-Proof. unfold w1, w2, dt, q0, q1, q2. unfold_c20. unfold C20_gyro_deg_R. revert U0 U1 U2. open3. gyro_close. Qed.
+Proof. unfold w1, w2, dt, q0, q1, q2. unfold_c20. unfold C20_gyro_deg_333_R. revert U0 U1 U2. open3. gyro_close. Qed.
 
 (* noise-free (gyr_noise = 0): the bias-corrected gyroscope rows are exactly the ground-truth rates in the output unit *)
-Lemma gyro_deg_zero sm m0 m1 m2 u0 u1 u2 ng00 ng01 ng02 ng10 ng11 ng12 ng20 ng21 ng22 :
-  C20_gyro_deg_R q0w q0x q0y q0z q1w q1x q1y q1z q2w q2x q2y q2z 0 sm m0 m1 m2 u0 u1 u2 ng00 ng01 ng02 ng10 ng11 ng12 ng20 ng21 ng22
+Lemma gyro_deg_333_zero sm m0 m1 m2 u0 u1 u2 ng00 ng01 ng02 ng10 ng11 ng12 ng20 ng21 ng22 :
+  C20_gyro_deg_333_R q0w q0x q0y q0z q1w q1x q1y q1z q2w q2x q2y q2z 0 sm m0 m1 m2 u0 u1 u2 ng00 ng01 ng02 ng10 ng11 ng12 ng20 ng21 ng22
   = Val ((add3 [0;0;0] (bias_deg dt q0 q1 q2 u0 u1 u2) ++ add3 (scale3 r2d w1) (bias_deg dt q0 q1 q2 u0 u1 u2) ++ add3 (scale3 r2d w2) (bias_deg dt q0 q1 q2 u0 u1 u2))
          ++ bias_deg dt q0 q1 q2 u0 u1 u2 ++ ([0;0;0] ++ w1 ++ w2)).
-Proof. rewrite gyro_deg_spec. apply Val_inj. cbv [add3 scale3 app e nth]. list_eq; ring. Qed.
+Proof. rewrite gyro_deg_333_spec. apply Val_inj. cbv [add3 scale3 app e nth]. list_eq; ring. Qed.
 End Given.
